@@ -40,7 +40,7 @@ INVARIANTS = {
     "C01": ["TypeOK", "C01"],
     "C02": ["TypeOK", "C02", "AbsInv"],
     "C03": ["TypeOK", "C03", "AbsInv", "InChainSame"],
-    "C04": ["TypeOK", "C04", "C04Cover", "C04First", "C04NoInvent", "SegSame"],
+    "C04": ["TypeOK", "C04", "C04Cover", "C04CoverDecl", "C04First", "C04NoInvent", "SegSame"],
     "C08": ["TypeOK", "C08", "FlushCandidateKept", "NoSurprise"],
 }
 
